@@ -15,7 +15,7 @@ pub fn def() -> PropDef {
 	PropDef {
 		id: "C18",
 		level: "exploration",
-		rule: "generated scripts over 2-4 actors - handles inside the harness process and child processes (`pdbv lock-child`) - with operations open / drop / SIGKILL of a child holder / write-by-holder, on one directory; plus races: all actors (threads and processes) released by a barrier open simultaneously a directory that needs recovery (crash image with pending logs). Oracle (model holder: Option<actor>): an open succeeds iff nobody holds the directory; a refused open returns the lock error and leaves the directory snapshot (names, lengths, content hashes, lock file ignored) unchanged; after drop or SIGKILL of the holder the next open succeeds and observes every write made by earlier holders; in a race exactly one actor succeeds. Non-trivial = an open attempted while another actor's handle is live (or still recovering); distinct = distinct case fingerprints",
+		rule: "generated scripts over 2-4 actors - handles inside the harness process and child processes (`pdbv lock-child`) - with operations open / drop / SIGKILL of a child holder / write-by-holder / drop of a holder with 150 queued commits while two threads keep trying to open (a second handle obtained before the drop returned must see a directory that no longer changes), on one directory; plus races: all actors (threads and processes) released by a barrier open simultaneously a directory that needs recovery (crash image with pending logs). Oracle (model holder: Option<actor>): an open succeeds iff nobody holds the directory; a refused open returns the lock error and leaves the directory snapshot (names, lengths, content hashes, lock file ignored) unchanged; after drop or SIGKILL of the holder the next open succeeds and observes every write made by earlier holders; in a race exactly one actor succeeds. Non-trivial = an open attempted while another actor's handle is live (or still recovering); distinct = distinct case fingerprints",
 		assumptions: &["holders run without background threads so that the directory is quiescent while a refused open is compared against the snapshot", "advisory flock semantics of the host kernel (tmpfs / local fs)"],
 		run,
 		replay,
@@ -35,6 +35,9 @@ pub enum LockOp {
 	Kill(u8),
 	/// the holder (if it is in-process) commits a key
 	Write(u16),
+	/// the in-process holder queues a burst of commits and drops its handle while two other
+	/// threads keep trying to open the directory
+	DropRacing(u8),
 }
 
 #[derive(Clone, Debug, Serialize, Deserialize)]
@@ -228,6 +231,75 @@ pub fn run_case(case: &LockCase, dir: &Path) -> CaseResult {
 					out.label("holder-killed");
 				}
 			},
+			LockOp::DropRacing(a) => {
+				let a = *a as usize % n;
+				if holder != Some(a) {
+					continue
+				}
+				let db = match held[a].take() {
+					Some(Held::Local(db)) => db,
+					other => {
+						held[a] = other;
+						continue
+					},
+				};
+				// work for the shutdown sequence: queued, unprocessed commits
+				for i in 0..150u16 {
+					let k = 100 + i;
+					db.commit(vec![(0u8, cfg.cols[0].key(k), Some(vec![i as u8; 300]))]).map_err(|e| Failure::new("commit-failed", e.to_string()))?;
+					written.push(k);
+				}
+				let dropped = std::sync::Arc::new(std::sync::atomic::AtomicBool::new(false));
+				let mut racers = Vec::new();
+				for _ in 0..2 {
+					let dropped = dropped.clone();
+					let opts = cfg.options(&db_dir, false);
+					let dir2 = db_dir.clone();
+					racers.push(std::thread::spawn(move || -> Result<bool, String> {
+						use std::sync::atomic::Ordering;
+						loop {
+							let finished = dropped.load(Ordering::SeqCst);
+							match Db::open(&opts) {
+								Ok(second) => {
+									// a second handle is live: from now on the first one must not touch the
+									// directory any more (it must have finished before releasing the lock)
+									let s1 = dir_snapshot(&dir2);
+									let mut spins = 0;
+									while !dropped.load(Ordering::SeqCst) && spins < 20_000 {
+										std::thread::sleep(std::time::Duration::from_millis(1));
+										spins += 1;
+									}
+									let s2 = dir_snapshot(&dir2);
+									drop(second);
+									if s1 != s2 {
+										return Err("a second handle was opened while the first one was still shutting down: the directory changed underneath it".to_string())
+									}
+									return Ok(true)
+								},
+								Err(parity_db::Error::Locked(_)) => {
+									if finished {
+										return Ok(false)
+									}
+								},
+								Err(e) => return Err(format!("racing open failed with {e}")),
+							}
+						}
+					}));
+				}
+				std::thread::sleep(std::time::Duration::from_millis(2));
+				drop(db);
+				dropped.store(true, std::sync::atomic::Ordering::SeqCst);
+				holder = None;
+				for r in racers {
+					match r.join().map_err(|_| Failure::new("panic@thread", "racer panicked"))? {
+						Ok(_) => {},
+						Err(e) if e.starts_with("racing open failed") => fail!("open-failed-unexpectedly", "{e}"),
+						Err(e) => fail!("second-handle-during-shutdown", "{e}"),
+					}
+				}
+				out.label("open-while-held");
+				out.label("opens-racing-a-drop");
+			},
 			LockOp::Write(k) => {
 				if let Some(h) = holder {
 					if let Some(Held::Local(db)) = &held[h] {
@@ -320,6 +392,7 @@ fn lock_case() -> impl Strategy<Value = LockCase> {
 			3 => (0u8..4).prop_map(LockOp::Drop),
 			1 => (0u8..4).prop_map(LockOp::Kill),
 			2 => any::<u16>().prop_map(LockOp::Write),
+			1 => (0u8..4).prop_map(LockOp::DropRacing),
 		];
 		proptest::collection::vec(op, 2..14).prop_map(move |ops| LockCase { actors: actors.clone(), ops, race, with_pending_logs })
 	})
